@@ -54,7 +54,14 @@ def mkprog(names, end='ret', rot=0):
     return {'steps': steps, 'end': end}
 
 
+def heavy(case):
+    return case.get('engine') == 'sched'
+
+
 def gen_cases(tier, seed):
+    from mc.checks import c01_threads
+    for c in c01_threads.gen_cases(tier, seed):
+        yield c
     letters = QUICK if tier == 'quick' else list(LETTERS)
     maxlen = 2 if tier == 'quick' else 3
     for kind in cassettes.KINDS:
@@ -128,6 +135,9 @@ def _uses(prog, names):
 
 
 def run_case(case):
+    if case.get('engine') == 'sched':
+        from mc.checks import c01_threads
+        return c01_threads.run_case(case)
     prog = case['prog']
     if _UNFAITHFUL and _uses(prog, _UNFAITHFUL):
         return dict(viol=[], obs='skipped-unfaithful', extra={'skipped_unfaithful': 1})
